@@ -440,6 +440,21 @@ func runC15(c *Ctx) {
 	// D11 (= E9): reporting the fault never waits for a reader (Err() need not be watched): the
 	// error channel has room for the one value written, otherwise the faulty discipline neither
 	// terminates nor lets a consumer that reads Err() after the output closed ever see the fault
+	// D13 (= B5): "still never exceeds HandlersQuantity" - in v1 the shares come from an unchecked
+	// division (into a nil map), and the only thing that keeps a faulty one from being handed out is
+	// the top-up's own test that what it wrote sums to the vacant handlers, made in every round
+	r.Doc("D13", "(= C01 B5) the top-up answers true only if what it wrote sums to the vacant handlers (a faulty share division is not handed out)", 2)
+	for _, p := range []*Prog{c.V1, c.V2} {
+		if pr, err := resolvePrio(p); err == nil {
+			sub := &Ctx{V1: c.V1, V2: c.V2, Tier: c.Tier, R: NewReport("tmp", c.Tier)}
+			checkB5(sub, pr, false)
+			for _, o := range sub.R.Obls {
+				r.Check(o.OK, "D13", strings.TrimPrefix(o.Key, "B5@"), o.Site, o.Detail, o.Detail)
+			}
+		} else {
+			r.Fail("D13", p.Name+":priority", "-", err.Error())
+		}
+	}
 	// D12 (= U8): "v2 New itself returns ErrDividerBad for such a fault at creation": no other
 	// refusal stands in front of the creation-time division for a configuration the division would
 	// have judged (HandlersQuantity < len(Inputs) refused as "too small" hides a faulty divider)
